@@ -13,7 +13,7 @@ import json, os, queue, re, shutil, subprocess, sys, threading, time
 
 ROOT = os.path.dirname(os.path.dirname(os.path.abspath(__file__)))
 REPO = "/repo"
-BASE = "/tmp/psw"
+BASE = os.environ.get("PSWEEP_BASE", "/tmp/psw")
 ENV = dict(os.environ, GOFLAGS="-mod=mod", GOPROXY="off", GOSUMDB="off", GOTOOLCHAIN="local")
 
 
